@@ -46,6 +46,15 @@ theorem binder_knows (s : SymScope) (stack : Stack) (sup : Supply) (n : Nsp) (cl
     (hx : (x, n.dictName) ∈ Nsp.allOuter.allOuterL n.children) : x ∈ n.innerNonlocal :=
   owner_knows s stack sup n cl sup' h (x, n.dictName) hx rfl
 
+/-- **No free name is left behind.**  Every free / nonlocal name of a function scope - other than
+    a method's implicit `__class__` cell - gets a dictionary decision, wherever it stands in the
+    symbol table's order (in particular after `__class__`, when the method also calls zero-argument
+    `super()`); by `free_name_goes_to_binder` the decision is CPython's. -/
+theorem every_free_name_is_resolved (s : SymScope) (stack : Stack) (sup : Supply) (n : Nsp) (cl : List Claim)
+    (sup' : Supply) (h : buildNsp stack sup s = .ok (n, cl, sup')) (hk : s.kind = .function) (x : String)
+    (hx : x ∈ s.frees ++ s.nonlocals) (hc : x ≠ "__class__") : ∃ d, (x, d) ∈ n.outerMap :=
+  outerMap_complete s stack sup n cl sup' h hk x hx hc
+
 /-- **Dictionaries are never confused**: the dictionary of a namespace differs from that of every
     enclosing scope (the name supply is injective), so a name kept in an enclosing function's
     dictionary cannot be taken for one of the namespace's own. -/
